@@ -182,6 +182,44 @@ func (w *c12World) probe() []string {
 	return out
 }
 
+// observeBehindOuter serves the probes with a response header map in which an outer layer has put one and the same
+// slice objects every time (as a layer with constant values may do): the middleware may append to Vary but must not
+// write into slices it was handed. It returns the signatures and what became of the outer layer's slices.
+func observeBehindOuter(m *cors.Middleware, probes []vlib.Req, vary, other []string) []string {
+	inner := &vlib.Noop{}
+	h := m.Wrap(inner)
+	out := make([]string, len(probes))
+	for i, p := range probes {
+		rec := vlib.NewRec()
+		rec.H["Vary"], rec.H["X-Outer"] = vary, other
+		h.ServeHTTP(rec, p.HTTP())
+		out[i] = fmt.Sprintf("%d|%v", rec.Status, rec.H)
+	}
+	return out
+}
+
+var (
+	c12OuterOnce     sync.Once
+	c12OuterPristine []string
+)
+
+// c12OuterBaseline: every probe behind fresh outer slices on a fresh world.
+func c12OuterBaseline() []string {
+	c12OuterOnce.Do(func() {
+		probes := c12Probes()
+		for mi := 0; mi < c12N; mi++ {
+			for _, p := range probes {
+				w, err := c12NewWorld()
+				if err != nil {
+					return
+				}
+				c12OuterPristine = append(c12OuterPristine, observeBehindOuter(w.m[mi], []vlib.Req{p}, []string{"Accept-Encoding"}, []string{"1"})...)
+			}
+		}
+	})
+	return c12OuterPristine
+}
+
 type scribbler struct{}
 
 func (scribbler) ServeHTTP(w http.ResponseWriter, r *http.Request) {
@@ -376,6 +414,20 @@ func c12Judge(k c12Case) *vlib.Failure {
 		got := w.probe()
 		if j := firstDiff(base, got); j >= 0 {
 			return vlib.Failf("after %v, middleware m%d answers %s with %s; before any adversarial activity it answered %s", k.Ops[:i+1], j/len(probes), probes[j%len(probes)], got[j], base[j])
+		}
+	}
+	// at the end: all probes once more behind an outer layer that hands over the same slice objects every time
+	ob := c12OuterBaseline()
+	vary, other := []string{"Accept-Encoding"}, []string{"1"}
+	for mi := range w.m {
+		got := observeBehindOuter(w.m[mi], probes, vary, other)
+		for pi := range got {
+			if len(ob) == c12N*len(probes) && got[pi] != ob[mi*len(probes)+pi] {
+				return vlib.Failf("after %v, behind an outer layer that always hands over the same Vary slice, middleware m%d answers %s with %s; as its first request it answered %s", k.Ops, mi, probes[pi], got[pi], ob[mi*len(probes)+pi])
+			}
+		}
+		if len(vary) != 1 || vary[0] != "Accept-Encoding" || other[0] != "1" {
+			return vlib.Failf("after %v and the probes on m%d, the outer layer's own slices read Vary=%q X-Outer=%q: the middleware wrote into them", k.Ops, mi, vary, other)
 		}
 	}
 	return nil
